@@ -52,7 +52,10 @@ void Curve::append_cubic(const Vec2 p0, const Vec2 p1, const Vec2 p2, const Vec2
             if (curvature < GDSTK_PARALLEL_EPS) {
                 dt = 1.0;
             } else {
-                double angle = 2 * acos(1 - curvature * tolerance);
+                // curvature * tolerance > 2 (a cusp, or a curve smaller than the tolerance) is outside the
+                // domain of acos: any step is then within tolerance, as in arc_num_points
+                const double cos_half = 1 - curvature * tolerance;
+                double angle = 2 * (cos_half < -1 ? M_PI : acos(cos_half));
                 dt = angle / (curvature * len_dc);
             }
         }
@@ -103,7 +106,10 @@ void Curve::append_quad(const Vec2 p0, const Vec2 p1, const Vec2 p2) {
             if (curvature < GDSTK_PARALLEL_EPS) {
                 dt = 1.0;
             } else {
-                double angle = 2 * acos(1 - curvature * tolerance);
+                // curvature * tolerance > 2 (a cusp, or a curve smaller than the tolerance) is outside the
+                // domain of acos: any step is then within tolerance, as in arc_num_points
+                const double cos_half = 1 - curvature * tolerance;
+                double angle = 2 * (cos_half < -1 ? M_PI : acos(cos_half));
                 dt = angle / (curvature * len_dc);
             }
         }
@@ -168,7 +174,10 @@ void Curve::append_bezier(const Array<Vec2> ctrl) {
             if (curvature < GDSTK_PARALLEL_EPS) {
                 dt = 1.0;
             } else {
-                double angle = 2 * acos(1 - curvature * tolerance);
+                // curvature * tolerance > 2 (a cusp, or a curve smaller than the tolerance) is outside the
+                // domain of acos: any step is then within tolerance, as in arc_num_points
+                const double cos_half = 1 - curvature * tolerance;
+                double angle = 2 * (cos_half < -1 ? M_PI : acos(cos_half));
                 dt = angle / (curvature * len_dc);
             }
         }
